@@ -590,3 +590,11 @@ m('meta-hasequal-exact-bool', 'utilities/anyid.h', "	template <typename C> stati
 m('meta-maxsizeof-min', 'utilities/anydata.h', "	static constexpr std::size_t value = tSize > otherSize ? tSize : otherSize;", "	static constexpr std::size_t value = tSize > otherSize ? otherSize : tSize;", 'C17', 'fire', None)
 # ShiftTuple is dead code in the library: changing it changes no behaviour and must not be reported
 m('eq-meta-shifttuple-dead-code', 'internal/typeutil_i.h', "	using Type = std::tuple<Args...>;\n};\n\ntemplate <>\nstruct ShiftTuple <std::tuple<> >", "	using Type = std::tuple<A, Args...>;\n};\n\ntemplate <>\nstruct ShiftTuple <std::tuple<> >", 'C14,C05', 'silent')
+
+# ---------------- 40 behaviour-preserving refactorings written by independent sub-agents (selftest/patches/eqagents) ----------
+_EQ_PROPS = {'A1': 'C01,C02,C03,C19', 'A2': 'C04,C03,C01', 'A3': 'C05,C06,C07,C08,C11,C13', 'A4': 'C05,C06,C07,C08,C09,C10,C11',
+             'A5': 'C14,C03,C12,C04,C02', 'A6': 'C14,C05,C06,C07,C09', 'A7': 'C15,C16,C09', 'A8': 'C17,C18,C08', 'A9': 'C12,C13,C08',
+             'A10': 'C03,C12,C20,C04'}
+for _a, _p in _EQ_PROPS.items():
+    for _e in ('e1', 'e2', 'e3', 'e4'):
+        M.append(dict(id='eqagent-%s-%s' % (_a, _e), patch=_os.path.join(_P, 'eqagents', '%s-%s.diff' % (_a, _e)), props=_p, expect='silent', rule=None))
